@@ -151,6 +151,9 @@ def shard(acc, item, tier, seed, stop_at=None):
         return case
     t = W.TYPE_CODE[typ]
     cfg = (("t", typ, n, None), ("g", typ, 2, None))      # g: a neighbour that must never change
+    wide = what == "read" and typ != "LREAL"
+    if wide:
+        cfg += (("w", "LREAL", 2, None),)                 # a tag of the widest element type served by the same Logix object
     S = sim.Sim(cfg)
     M = sim.mods()
     model = refmodel.TagModel(cfg, S.addr_of)
@@ -161,9 +164,18 @@ def shard(acc, item, tier, seed, stop_at=None):
                 S.attrs["t"].default = vals[0]
             else:
                 S.attrs["t"].default[:] = list(vals)
+            if wide:
+                wvals = pattern(W.LREAL, 2)
+                S.attrs["w"].default[:] = list(wvals)
             model.load_observed(S.store())
             for B in Bs:
                 M.logix.Logix.MAX_BYTES = B
+                if wide:
+                    # the budget is per request: what a transfer of 8-byte elements did under this budget must not leak into the
+                    # transfers of narrower elements that follow on the same object
+                    bad, _ = read_transfer(S, "w", W.LREAL, 2, 0, 2, B, wvals)
+                    for k, m in bad:
+                        acc.violation("wide:" + k, tag({"op": "read", "type": "LREAL", "n": 2, "i": 0, "c": 2, "B": B}), m)
                 for i, c in ranges(n, B, W.SIZE[t]):
                     if True:
                         counter[0] += 1
